@@ -7,6 +7,7 @@ mod arith_table;
 mod exec;
 mod exec_inst;
 mod exec_misc;
+mod exec_store;
 mod exec_text;
 mod gen;
 mod gen_inst;
